@@ -23,6 +23,9 @@ func c09Steps() []*Expr {
 		f(eCmp("==", eCur(), eInt(1))), f(eCmp("==", eCur(sKey("a")), eInt(1))), f(eExists(eCur(sKey("a")))), f(eCmp(">", eCur(), eInt(0))),
 		f(eCmp("==", eCur(sAnyArray()), eInt(1))), f(eCmp("==", eCur(sMethod("type")), eStr("object"))),
 		f(eExists(eCur(sAnyKey(), sFilter(eCmp("==", eCur(), eInt(1)))))),
+		// an operand that walks key/value pairs and fails on one of them (at any position in key order)
+		f(eCmp("==", eCur(sMethod("keyvalue"), sKey("value"), sMethod("double")), eInt(1))),
+		f(eExists(eCur(sMethod("keyvalue"), sKey("value"), sMethod("integer")))),
 	}
 	return steps
 }
@@ -249,7 +252,7 @@ func c09KeyvalueBase(c Case) *Failure {
 }
 
 func runC09(r *Run) {
-	r.Rule("explicit-state exploration: for every document with <= K nodes and both modes, depth-first over every chain of <= L root-independent steps (33-step alphabet: keys, wildcards, subscripts with literal and last-relative bounds, .**{a to b}, all methods, filters whose condition mentions only @); state = item sequence the prefix produced, transition = one appended step executed by the real Query(P.s, d) and compared with the concatenation over the state's items x of the real Query($.s, x) (failing iff the prefix or one of those fails; strict steps after .** excluded; keyvalue ids masked); plus variable/literal starts, keyvalue base-object restoration, and register-restoration expressions against the reference model; non-trivial = transitions whose source state is non-empty; operands rooted in a variable whose steps mention the enclosing item ($x[@], $x[@.a], $x.a[@], $x[0 to @], $x[last-@], $x[*] ? (@ == $[0])) in 11 condition shapes under [*], [0 to last] and .* x 60 documents x 3 bindings of $x, against the reference")
+	r.Rule("explicit-state exploration: for every document with <= K nodes and both modes, depth-first over every chain of <= L root-independent steps (35-step alphabet: keys, wildcards, subscripts with literal and last-relative bounds, .**{a to b}, all methods, filters whose condition mentions only @); state = item sequence the prefix produced, transition = one appended step executed by the real Query(P.s, d) and compared with the concatenation over the state's items x of the real Query($.s, x) (failing iff the prefix or one of those fails; strict steps after .** excluded; keyvalue ids masked); plus variable/literal starts, keyvalue base-object restoration, and register-restoration expressions against the reference model; non-trivial = transitions whose source state is non-empty; operands rooted in a variable whose steps mention the enclosing item ($x[@], $x[@.a], $x.a[@], $x[0 to @], $x[last-@], $x[*] ? (@ == $[0])) in 11 condition shapes under [*], [0 to last] and .* x 60 documents x 3 bindings of $x, against the reference")
 	steps := c09Steps()
 	texts := make([]string, len(steps))
 	for i, s := range steps {
@@ -445,7 +448,27 @@ func c09Registers(r *Run) {
 	r.Bound("variable_rooted_paths", 2*len(ves))
 	refSweep(r, "variable-rooted-operand-per-item", bothModes(ves), makeDocs(vvals), []sweepCfg{{Num: "float64", Vars: map[string]string{"x": `j:[2,0,1]`}},
 		{Num: "float64", Vars: map[string]string{"x": `j:{"a":[1,0,2]}`}}, {Num: "number", Vars: map[string]string{"x": `j:[[0],1,2]`}}})
+	// a step sequence that walks key/value pairs and fails on one of them, as a path of its own (silent
+	// prefix semantics) and as an operand (suppressed inside the condition), failing member at each position
+	kvv := []*Expr{sMethod("keyvalue"), sKey("value")}
+	for _, m := range []string{"double", "integer", "abs"} {
+		chain := append(append([]*Expr{}, kvv...), sMethod(m))
+		for _, pf := range []*Expr{eRoot(), eRoot(sAnyArray()), eRoot(sKey("a"))} {
+			es = append(es, pf.withSteps(chain...), pf.withSteps(sFilter(eCmp(">", eCur(chain...), eInt(0)))), pf.withSteps(sFilter(eExists(eCur(chain...)))),
+				pf.withSteps(sFilter(eIsUnknown(eCmp(">", eCur(chain...), eInt(0))))), pf.withSteps(sFilter(eCmp("==", eArith("+", eCur(chain...), eInt(1)), eInt(2)))))
+		}
+	}
+	for _, a := range []any{float64(1), "x", float64(-1)} {
+		for _, b := range []any{float64(1), "x"} {
+			for _, c := range []any{float64(1), "x"} {
+				o := map[string]any{"a": a, "b": b, "c": c}
+				vals = append(vals, o, []any{o, map[string]any{"a": c, "b": a}}, map[string]any{"a": o})
+			}
+		}
+	}
+	es = append(es, lastAfterFailingSubscript()...)
+	vals = append(vals, mustDoc(`[[1,2],5,6,7]`, "float64"), mustDoc(`[[1,2,3],5]`, "float64"), mustDoc(`[[0],5,6]`, "float64"))
 	r.Bound("register_paths", 2*len(es))
 	r.Bound("register_documents", len(vals))
-	refSweep(r, "register-restoration-vs-reference", bothModes(es), makeDocs(vals), []sweepCfg{{Num: "float64"}})
+	refSweep(r, "register-restoration-vs-reference", bothModes(es), makeDocs(vals), []sweepCfg{{Num: "float64"}, {Num: "float64", Silent: true}})
 }
